@@ -295,6 +295,9 @@ def result_list(L, cfgobj, content):
 
 # ------------------------------------------------------------------------------- real client, driven like commands.py
 
+_OTHER_LOOP = None
+
+
 class ClientHost:
     """a simulated client process running the repo's real client `Service`, one operation at a time,
     the way frontend/client/commands.py drives it"""
@@ -322,6 +325,21 @@ class ClientHost:
         import frontend.client.services.service as csvc
         if not fresh and self.obj is not None and self.obj.sid == sid:
             return self.obj
+        if self.run.knobs.get("sync_construct"):
+            # the application builds its client object in plain synchronous code and only later enters an event loop with it
+            # (asyncio.run): while the constructor runs there is no running loop
+            import asyncio
+            global _OTHER_LOOP
+            if _OTHER_LOOP is None:
+                _OTHER_LOOP = asyncio.new_event_loop()  # what asyncio.get_event_loop() hands to synchronous code: not the loop asyncio.run() makes later
+            prev = asyncio._get_running_loop()
+            asyncio._set_running_loop(None)
+            asyncio.set_event_loop(_OTHER_LOOP)
+            try:
+                return csvc.Service(sid)
+            finally:
+                asyncio.set_event_loop(prev)
+                asyncio._set_running_loop(prev)
         return csvc.Service(sid)
 
     async def create(self, cfg):
